@@ -934,13 +934,15 @@ static void level_scale(void)
 	in_scale = 1;
 	for (int i = 0; i < SCK; i++)
 		snprintf(sck[i], sizeof sck[i], "key%d", i);
-	for (int hashfn = 0; hashfn < 2; hashfn++)
+	for (int hashfn = 0; hashfn < 4; hashfn++)
 		for (int script = 0; script < 3; script++)
 		{
+			/* hashfn 2 and 3: the process switches the global string hash while the object is alive
+			 * (after 40 keys) - the object keeps working through its later growths */
 			snprintf(scaledesc, sizeof scaledesc, "level=scale hashfn=%d script=%d", hashfn, script);
 			if (!mc_case_begin())
 				continue;
-			json_global_set_string_hash(hashfn ? JSON_C_STR_HASH_PERLLIKE : JSON_C_STR_HASH_DFLT);
+			json_global_set_string_hash((hashfn & 1) ? JSON_C_STR_HASH_PERLLIKE : JSON_C_STR_HASH_DFLT);
 			struct json_object *o = json_object_new_object();
 			sc_n = 0;
 			for (int k = 0; k < SCK; k++)
@@ -949,6 +951,8 @@ static void level_scale(void)
 			int n1 = script == 0 ? 100 : script == 1 ? 400 : 1100;
 			for (int k = 0; k < n1 && ok; k++)
 			{
+				if (k == 40 && hashfn >= 2)
+					json_global_set_string_hash((hashfn & 1) ? JSON_C_STR_HASH_DFLT : JSON_C_STR_HASH_PERLLIKE);
 				json_object_object_add(o, sck[k], json_object_new_int(serial));
 				sc_val[k] = serial++;
 				sc_order[sc_n++] = k;
